@@ -54,3 +54,70 @@ M('C16', 'neutral-rename-locals', SD, """        if self.max_index.is_none()
             self.max_index = Some(n_now);
         }
 """, kind='neutral')
+
+# ---------------------------------------------------------------- C17
+DDF = 'src/common/discrete_domain.rs'
+S1F = 'src/func1/series1.rs'
+M('C17', 'linear-reshadow', DDF, "let (start, end) = (start.min(end), start.max(end));", "let start = start.min(end);\n        let end = start.max(end);", 'linear:ascending')
+M('C17', 'linear-no-n-guard', DDF, """        let (start, end) = (start.min(end), start.max(end));
+        if n < 2 {""", """        let (start, end) = (start.min(end), start.max(end));
+        if n < 1 {""", 'linear')
+M('C17', 'try_from-skip-order-check', DDF, "        if !are_in_ascending_order(&values) {", "        if false && !are_in_ascending_order(&values) {", 'try_from')
+M('C17', 'push-no-order-check', DDF, "if !self.is_empty() && value < self.values[self.values.len() - 1] {", "if !self.is_empty() && value < self.values[0] {", 'push:order')
+M('C17', 'push-before-check', DDF, """        if !self.is_empty() && value < self.values[self.values.len() - 1] {
+            return Err(Box::from(
+                "Cannot add a value to a discrete domain that is less than the last value",
+            ));
+        }
+        self.values.push(value);""", """        self.values.push(value);
+        if self.values.len() > 1 && value < self.values[self.values.len() - 2] {
+            return Err(Box::from(
+                "Cannot add a value to a discrete domain that is less than the last value",
+            ));
+        }""", 'push')
+M('C17', 'values-mut-accessor', DDF, """    pub fn len(&self) -> usize {
+        self.values.len()
+    }""", """    pub fn len(&self) -> usize {
+        self.values.len()
+    }
+
+    pub fn values_mut(&mut self) -> &mut Vec<f64> {
+        &mut self.values
+    }""", 'no-mut-handout')
+M('C17', 'scaled_by-forget-rev-y', S1F, "            Self::new(new_xs, ys.into_iter().rev().collect())", "            Self::new(new_xs, ys)", 'scaled_by')
+M('C17', 'remove_nan-unpaired', S1F, """            if x.is_nan() || y.is_nan() {
+                continue;
+            }
+            xs.push(*x);
+            ys.push(*y);""", """            ys.push(*y);
+            if x.is_nan() || y.is_nan() {
+                continue;
+            }
+            xs.push(*x);""", 'remove_nan:lockstep')
+M('C17', 'between-wrong-ordinate', S1F, """            xs.push(x1);
+            ys.push(self.interpolate(x1));""", """            xs.push(x1);
+            ys.push(self.interpolate(x0));""", 'between:x1')
+M('C17', 'dydx-skip-last', S1F, "        for j in 0..self.y.len() {\n            if j == 0 {", "        for j in 0..self.y.len() - 1 {\n            if j == 0 {", 'dydx:lockstep')
+M('C17', 'neutral-try_from-reorder-checks', DDF, """        if !are_all_finite(&values) {
+            return Err(Box::from(
+                "Cannot create a discrete domain from a vector containing NaN or infinite values",
+            ));
+        }
+
+        if !are_in_ascending_order(&values) {
+            return Err(Box::from(
+                "Cannot create a discrete domain from a vector that is not in ascending order",
+            ));
+        }
+""", """        let sorted_ok = are_in_ascending_order(&values);
+        if !sorted_ok {
+            return Err(Box::from(
+                "Cannot create a discrete domain from a vector that is not in ascending order",
+            ));
+        }
+        if !are_all_finite(&values) {
+            return Err(Box::from(
+                "Cannot create a discrete domain from a vector containing NaN or infinite values",
+            ));
+        }
+""", kind='neutral')
